@@ -3,7 +3,7 @@ use crate::c03::{bound_universe, fmt_calls, parse_calls};
 use crate::common::*;
 use crate::core::*;
 use crate::dynaut::*;
-use fst::automaton::{AlwaysMatch, Automaton, Str, Subsequence};
+use fst::automaton::{AlwaysMatch, Str, Subsequence};
 use fst::raw::Fst;
 use fst::{IntoStreamer, Streamer};
 
